@@ -276,4 +276,60 @@ Proof.
   - repeat split; auto; try discriminate. destruct rel; [contradiction|exact IH2].
 Qed.
 
+(* with unique names in every directory (a real file system), "reachable through entries" is the
+   same as "is a regular file at that relative path" *)
+Inductive uniq : tree -> Prop :=
+| uniq_file d c : uniq (File d c)
+| uniq_dir d es : NoDup (map fst es) -> (forall n s, In (n, s) es -> uniq s) -> uniq (Dir d es).
+
+Lemma assoc_name_sound {B} n (es : list (name * B)) s : assoc_name n es = Some s -> In (n, s) es.
+Proof.
+  induction es as [|[m v] r IH]; simpl; [discriminate|].
+  destruct (str_eqb n m) eqn:E.
+  - apply str_eqb_eq in E. subst. intros H. inversion H. auto.
+  - auto.
+Qed.
+
+Lemma assoc_name_complete {B} n (es : list (name * B)) s :
+  NoDup (map fst es) -> In (n, s) es -> assoc_name n es = Some s.
+Proof.
+  induction es as [|[m v] r IH]; simpl; intros ND I; [destruct I|].
+  inversion ND as [|? ? NI ND']; subst. destruct I as [I|I].
+  - inversion I; subst. rewrite str_eqb_refl. reflexivity.
+  - destruct (str_eqb n m) eqn:E.
+    + apply str_eqb_eq in E. subst. exfalso. apply NI. apply in_map_iff. exists (m, s). auto.
+    + auto.
+Qed.
+
+Theorem reach_is_lookup : forall rel (t : tree),
+  uniq t ->
+  (reach t rel <->
+   (exists d es, t = Dir d es) /\ rel <> [] /\ (exists d c, lookup C t rel = Some (File d c)) /\
+   Forall (fun n => skip_name n = false) rel /\ is_py (last rel []) = true).
+Proof.
+  induction rel as [|n r IH]; intros t U.
+  - split.
+    + intros R. inversion R.
+    + intros [_ [N _]]. contradiction.
+  - split.
+    + intros R. inversion R as [dv es n' d c I SK PY|dv es n' d' es' rel' I SK R']; subst.
+      * inversion U as [|? ? ND US]; subst.
+        repeat split; eauto; try discriminate.
+        exists d, c. simpl. rewrite (assoc_name_complete _ _ _ ND I). reflexivity.
+      * inversion U as [|? ? ND US]; subst.
+        pose proof (US _ _ I) as U'. apply (IH _ U') in R' as [_ [NE [[d [c L]] [FA PY]]]].
+        repeat split; eauto; try discriminate.
+        -- exists d, c. simpl. rewrite (assoc_name_complete _ _ _ ND I). exact L.
+        -- destruct r; [contradiction|exact PY].
+    + intros [[d0 [es E]] [_ [[d [c L]] [FA PY]]]]. subst t.
+      inversion U as [|? ? ND US]; subst. inversion FA as [|? ? SK FA']; subst.
+      simpl in L. destruct (assoc_name n es) as [s|] eqn:AS; [|discriminate].
+      apply assoc_name_sound in AS.
+      destruct r as [|n2 r2].
+      * simpl in L. inversion L; subst. eapply reach_file; eauto.
+      * destruct s as [d' c'|d' es']; [simpl in L; discriminate|].
+        eapply reach_dir; eauto. apply IH; [eapply US; eauto|].
+        repeat split; eauto; try discriminate.
+Qed.
+
 End PathSem.
